@@ -5,6 +5,7 @@ import Whawty.Model.Pam
 import Driver.Proto
 import Driver.StoreCmd
 import Driver.TraceCmd
+import Driver.CfgCmd
 open Whawty Whawty.Proto
 
 def unknownMsg : Bytes := [117, 110, 107, 110, 111, 119, 110]   -- "unknown"
@@ -81,7 +82,7 @@ def predict (cmd : List String) : Option String :=
     if script.startsWith "R" || sent.isEmpty then pure s!"{rc} {sBytes sent}" else pure s!"{rc} *"
   | ["pam.enc", u, p] => do
     pure s!"ok {sBytes (Sasl.pamEncode (← pBytes u) (← pBytes p))}"
-  | _ => (StoreCmd.predict cmd).orElse fun _ => TraceCmd.predict cmd
+  | _ => ((StoreCmd.predict cmd).orElse fun _ => TraceCmd.predict cmd).orElse fun _ => CfgCmd.predict cmd
 
 def handle (line : String) : String :=
   let toks := (line.splitOn " ").filter (· ≠ "")
